@@ -503,7 +503,11 @@ func IsQuadTree(tms tms20.TileMatrixSet) error {
 		if len(tm.VariableMatrixWidths) != 0 {
 			return errors.New("variable matrix widths are not supported: " + tm.ID)
 		}
-		if previousTM != nil {
+		if previousTM == nil {
+			if tmID != 0 {
+				return errors.New("tile matrix IDs should be a range with step 1 starting with 0")
+			}
+		} else {
 			if tmID != previousTMID+1 {
 				return errors.New("tile matrix IDs should be a range with step 1 starting with 0")
 			}
